@@ -276,4 +276,21 @@ def zerosOf (d : List Nat) : Nat := (d.filter (fun v => v = 0)).length
 def histOf (d : List Nat) : List Nat :=
   [(d.filter (fun v => v = 0)).length, (d.filter (fun v => v = 1)).length, (d.filter (fun v => v = 2 || v = 3)).length]
 
+/-! ## Chromosome-name lookup (`StringEncoding.encode` → `AsciiHashTable`) -/
+
+def bigMod : Nat := 2147483647      -- `AsciiHashTable.big_mod = 2**31 - 1`
+
+/-- `get_ascii_hash`: `sum((powers * bytes) % mod) % mod` with `powers[i] = 129^i` reduced step by step -/
+def hashGo (p : Nat) : List Nat → Nat
+  | [] => 0
+  | b :: r => (p * b) % bigMod + hashGo ((p * 129) % bigMod) r
+
+def asciiHash (bs : List Nat) : Nat := hashGo 1 bs % bigMod
+
+/-- `self._hash_table[hashes]`: the index stored under the query's hash (`IndexError` → `EncodingError` when absent);
+the npstructures `HashTable` is an external: key ↦ value -/
+def lookupName (names : List (List Nat)) (q : List Nat) : Option Nat :=
+  let hs := names.map asciiHash
+  if hs.idxOf (asciiHash q) < hs.length then some (hs.idxOf (asciiHash q)) else none
+
 end C10
